@@ -160,6 +160,8 @@ Allowed(pre, op, post, ret) ==
 ObsOK(post, obs) ==
     /\ \A n \in DOMAIN obs.has : obs.has[n] = HasT(post, n)
     /\ \A n \in DOMAIN obs.get : obs.get[n] = IF HasT(post, n) THEN n ELSE ""
+    \* the empty name, probed apart (it cannot be a record field across the JSON boundary)
+    /\ obs.has_empty = HasT(post, "") /\ (~HasT(post, "") => obs.get_empty = "")
 
 -----------------------------------------------------------------------------
 (* C15: Schema.Check                                                       *)
